@@ -173,6 +173,18 @@ def run(ctx):
             deep = 'select ' + kind * depth + '1' + ')' * depth + ' from t'
             for o in ({'reindent': True}, {'reindent_aligned': True}, {'strip_whitespace': True}, {'strip_comments': True}, {'use_space_around_operators': True}):
                 try_format(ctx, deep, o, 'deep nesting')
+    # every kind of line break (LF, CRLF, bare CR, other str.splitlines() separators) x every output format x layout options:
+    # filters and output wrappers decide "is this a line break" in different ways
+    LB_TEXT = "select a,%s  b -- c%sfrom t%s%swhere x = 'p%sq' /* m%sn */ and y = 2;%sselect 2"
+    for lb in ['\n', '\r\n', '\r', '\n\r', '\x0b', '\x0c', '\x1c', '\x85', '\u2028', '\u2029']:
+        text = LB_TEXT % ((lb,) * 7)
+        for fmt in (None, 'sql', 'python', 'php'):
+            for extra in ({}, {'reindent': True}, {'strip_whitespace': True}, {'strip_comments': True}, {'reindent_aligned': True}, {'use_space_around_operators': True},
+                          {'keyword_case': 'upper', 'truncate_strings': 2}, {'reindent': True, 'comma_first': True, 'wrap_after': 1}):
+                o = dict(extra)
+                if fmt:
+                    o['output_format'] = fmt
+                try_format(ctx, text, o, 'line break kinds')
     for c in streams.corpus('C07'):
         try_format(ctx, c['input'], c.get('options', {}), 'corpus')
     ctx.samples.append({'probe': PROBE[:60], 'pool': [repr(v) for v in POOL[:12]]})
